@@ -226,7 +226,8 @@ M_BIN = {"value-has-comma", "absent-label-matcher", "matcher-on-missing-key", "s
          "name-regex-same-tagset", "agg-value-has-brace", "binop-label-order", "binop-trailing-comma", "tsid-preimage-collision", "no-tags",
          "tag-value-over-64k", "crash-before-tags-flush", "star-literal-matcher", "tag-value-not-a-string",
          "binop-one-sided-timestamp", "binop-division-by-zero", "vector-matching-label-chars", "set-operator-with-on", "unary-minus",
-         "comparison-scalar-on-the-left", "empty-intermediate-vector", "escaped-metric-name", "mixed-name-vector-operand"}
+         "comparison-scalar-on-the-left", "empty-intermediate-vector", "escaped-metric-name", "mixed-name-vector-operand",
+         "vector-matching-value-ends-with-brace"}
 # classes of REPAIRED deviations (known_findings.txt `fixed:` lines).  They never excuse anything: a disagreement that a
 # still recorded class of the query can explain is reported under that class alone; one that only repaired classes could
 # explain is reported as e2em/in-class/<repaired class>, which no `known:` line lists any more — i.e. as a VIOLATION
